@@ -4,6 +4,7 @@ import (
 	"bytes"
 	"runtime"
 	"strconv"
+	"syscall"
 	"time"
 )
 
@@ -146,6 +147,7 @@ func (s *Sim) takeSnapshot(detail bool) Snapshot {
 func (s *Sim) waitQuiescent() (Snapshot, bool) {
 	t0 := time.Now()
 	spins := 0
+	nextStallCheck := t0.Add(s.StallAfter)
 	for {
 		before := s.tableLen()
 		snap := s.takeSnapshot(false)
@@ -170,6 +172,15 @@ func (s *Sim) waitQuiescent() (Snapshot, bool) {
 			runtime.Gosched()
 		} else {
 			time.Sleep(time.Duration(20+spins) * time.Microsecond)
+		}
+		if spins%64 == 0 && s.StallAfter > 0 && time.Now().After(nextStallCheck) {
+			// nothing has parked or blocked for a long time: is a goroutine of
+			// the program under test spinning? (checked again every StallAfter)
+			nextStallCheck = time.Now().Add(s.StallAfter)
+			if snap, spinning := s.detectSpin(); spinning {
+				snap.Why = "livelock"
+				return snap, false
+			}
 		}
 		if spins%256 == 0 && !s.Deadline.IsZero() && time.Now().After(s.Deadline) {
 			snap = s.takeSnapshot(true)
@@ -214,3 +225,54 @@ func creatorChain() []uint64 {
 	}
 	return []uint64{id}
 }
+
+// detectSpin samples the goroutine states ten times over five seconds. It
+// reports a livelock when the same goroutine is runnable/running in the same
+// function in every sample and the process burned CPU for most of the window:
+// a busy loop, as opposed to a process that is merely starved of CPU.
+func (s *Sim) detectSpin() (Snapshot, bool) {
+	const samples = 10
+	const gap = 500 * time.Millisecond
+	var ru0, ru1 syscall.Rusage
+	syscall.Getrusage(syscall.RUSAGE_SELF, &ru0)
+	w0 := time.Now()
+	count := map[string]int{}
+	var last Snapshot
+	for i := 0; i < samples; i++ {
+		snap := s.takeSnapshot(true)
+		last = snap
+		if snap.Quiesced {
+			return snap, false
+		}
+		seen := map[string]bool{}
+		for _, g := range snap.Others {
+			if g.Stable {
+				continue
+			}
+			top := ""
+			for _, f := range g.Frames {
+				if !hasPrefix(f, "runtime.") && !hasPrefix(f, "sync.") && !hasPrefix(f, "syscall.") && !hasPrefix(f, "internal/") && !hasPrefix(f, "os.") && !hasPrefix(f, "bufio.") {
+					top = f
+					break
+				}
+			}
+			k := strconv.FormatUint(g.ID, 10) + "@" + top
+			if !seen[k] {
+				seen[k] = true
+				count[k]++
+			}
+		}
+		time.Sleep(gap)
+	}
+	syscall.Getrusage(syscall.RUSAGE_SELF, &ru1)
+	cpu := time.Duration(ru1.Utime.Nano()-ru0.Utime.Nano()) + time.Duration(ru1.Stime.Nano()-ru0.Stime.Nano())
+	wall := time.Since(w0)
+	for _, c := range count {
+		if c == samples && cpu > wall/5 {
+			return last, true
+		}
+	}
+	return last, false
+}
+
+func hasPrefix(s, p string) bool { return len(s) >= len(p) && s[:len(p)] == p }
